@@ -8,7 +8,7 @@ HARNESS = dict(_m.HARNESS, args=['--prop', 'C05'])
 
 CONFIG = {
     'subs': ['Split', 'RecordIO', 'Wrap', 'TIter'],
-    'props_modules': ['DmlcModel.Props.C05', 'DmlcModel.Props.C05Witness', 'DmlcModel.Props.C05Shuffle', 'DmlcModel.Props.C05ShuffleText'],
+    'props_modules': ['DmlcModel.Props.C05', 'DmlcModel.Props.C05Witness', 'DmlcModel.Props.C05Shuffle', 'DmlcModel.Props.C05ShuffleText', 'DmlcModel.Props.C05ShuffleRec'],
     'driver': 'Split',
     'harness': HARNESS,
     'rule': 'cases = operation histories on one split object, always ending in a full drain. Exhaustive: every history of '
